@@ -72,7 +72,7 @@ def plan(tier, seed):
         grid = [int(rng.integers(4, [17, 9, 6][nd - 1])) for _ in range(nd)]
         M = int(rng.integers(16, 40))
         ov, w = pick(rng, [(1.25, 4), (1.25, 4), (2, 4)])
-        d = {"op": "NUFFT", "ishape": ([2] if rng.random() < 0.3 else []) + grid,
+        d = {"op": "NUFFT", "ishape": pick(rng, [[], [], [], [2], [2], [1], [2, 3]]) + grid,
              "nd": nd, "pts": [M], "ccls": pick(rng, ["inside", "inside", "outside",
                                                       "clustered"]),
              "oversamp": ov, "width": w, "toeplitz": True, "aseed": int(rng.integers(1 << 30))}
